@@ -353,6 +353,9 @@ class Renderer:
         items = []
         for k, v in a.items():
             items.append(k if v is None else "%s = %s" % (k, v))
+        if self.cfg.get("split_attrs") and len(items) > 1 and self.r.random() < 0.5:
+            # every attribute in a group of its own:  (* LOC = "X" *) (* DONT_TOUCH *)
+            return " ".join("(* %s *)" % it for it in items) + "\n"
         return "(* " + ", ".join(items) + " *)\n"
 
     def module(self, d, m):
